@@ -716,6 +716,10 @@ func (db *DB) rollbackJournal(ctx context.Context) error {
 		}
 	}
 
+	// The pages the rolled-back transaction had written are not dirty any more.
+	// Left in the set they would be attributed to the next transaction.
+	db.dirtyPageSet = make(map[uint32]struct{})
+
 	return nil
 }
 
